@@ -15,6 +15,7 @@ package rules
 //   C03.walk     Walk wrappers: one-root / order constants, child iteration
 //   C03.seek     position plumbing: windows, relative/absolute seeks with restore, length / bits left
 //   C03.inside   no value beyond the end of its buffer: bounded seek, remaining-input tests before every success
+//   C03.lower    (borrowed from C01) seekers refuse a target before their own start
 //   C03.readers  (borrowed from C02) raw-bits reader and peeks move the position by what they hand out
 //   C03.cover    (borrowed from C04) delimited nested decodes are gap-filled: the value's range is the range it was given
 //   C03.roots    (borrowed from C12) Parent links lead to the buffer root
